@@ -74,7 +74,7 @@ class C19(ApiProp):
                         op = ("Shift",)
                     pre.append(op)
                     b.apply(op)
-                c = mk_case(size, 0, [], pre + [("EscapeAscii",), ("Debug",), ("Readable",)], "text-forms")
+                c = mk_case(size, rng.choice([0, 0, 0, 4, 5, 6]), [], pre + [("EscapeAscii",), ("Debug",), ("Readable",)], "text-forms")
                 c.meta["fam"] = "api"
                 cases.append(c)
         return cases
